@@ -61,10 +61,14 @@ func execRealOnce(sc RealScenario) *evid.Failure {
 			mu.Lock()
 			handled = append(handled, hlog{w.Conn().RemoteAddr().String(), string(b)})
 			mu.Unlock()
-			if path, _ := rq.Path(); path == "/ask-con" || path == "/ask-non" {
+			if path, _ := rq.Path(); path == "/ask-con" || path == "/ask-non" || path == "/ask-rst" {
 				// the handler asks the peer something on the peer's own connection before it answers
 				// (confirmable or non-confirmable): the server goes on serving meanwhile
-				ctx, cancel := context.WithTimeout(context.Background(), 4*time.Second)
+				wait := 4 * time.Second
+				if path == "/ask-rst" {
+					wait = 300 * time.Millisecond // (the peer will reject the request: nothing to wait for)
+				}
+				ctx, cancel := context.WithTimeout(context.Background(), wait)
 				defer cancel()
 				q, err := w.Conn().NewGetRequest(ctx, "/q")
 				if err == nil {
@@ -138,6 +142,8 @@ func execRealOnce(sc RealScenario) *evid.Failure {
 		bad[i] = c
 		defer c.Close()
 	}
+	var resetter *net.UDPConn
+	resetMID, resetterTalked := 0, false
 	for _, st := range sc.Steps {
 		switch st.Kind {
 		case "req", "ask-con", "ask-non":
@@ -162,6 +168,54 @@ func execRealOnce(sc RealScenario) *evid.Failure {
 			}
 			if b, _ := resp.ReadBody(); string(b) != "echo:"+body {
 				return evid.Failf("real/good-client-wrong-response", sc, "well-behaved client %d: request %q answered with %q", c, body, b)
+			}
+		case "rawreset":
+			// A peer on a raw socket asks the server something whose handler first asks back with a
+			// confirmable request - and answers that with a Reset (RFC 7252 4.2: a recipient that cannot
+			// process a confirmable message rejects it so). Then it goes on talking: all of it is one
+			// conversation from one remote address.
+			if resetter == nil {
+				c, err := net.DialUDP("udp4", nil, srvUDP)
+				if err != nil {
+					return nil
+				}
+				resetter = c
+				defer c.Close()
+			}
+			exchange := func(path, body string) (string, bool) {
+				resetMID++
+				mid := 21000 + resetMID
+				req := refcodec.Msg{Type: peer.CON, MID: mid, Code: 2, Token: []byte{0x5e, byte(resetMID)}, Opts: peer.PathOpts(path), Payload: []byte(body)}
+				_, _ = resetter.Write(peer.Datagram(req))
+				buf := make([]byte, 2048)
+				for {
+					_ = resetter.SetReadDeadline(time.Now().Add(6 * time.Second))
+					n, err := resetter.Read(buf)
+					if err != nil {
+						return "", false
+					}
+					m, ok := peer.ParseDatagram(buf[:n])
+					switch {
+					case !ok:
+					case m.Type == peer.CON && m.Code == 1:
+						_, _ = resetter.Write(peer.Datagram(refcodec.Msg{Type: peer.RST, MID: m.MID}))
+					case m.Type == peer.ACK && m.MID == mid && m.Code != 0:
+						return string(m.Payload), true
+					case m.Code != 0 && bytes.Equal(m.Token, req.Token): // separate response
+						if m.Type == peer.CON {
+							_, _ = resetter.Write(peer.Datagram(refcodec.Msg{Type: peer.ACK, MID: m.MID}))
+						}
+						return string(m.Payload), true
+					}
+				}
+			}
+			if _, ok := exchange("ask-rst", fmt.Sprintf("r#%d", resetMID)); !ok {
+				return evid.Failf("real/raw-peer-not-answered", sc, "a peer that rejected the handler's own request with a Reset got no response to its request at all")
+			}
+			resetterTalked = true
+			body := fmt.Sprintf("r#%d", resetMID)
+			if got, ok := exchange("echo", body); !ok || got != "echo:"+body {
+				return evid.Failf("real/raw-peer-not-served", sc, "after it had reset a confirmable message of the server the peer's next request was answered with %q (%v)", got, ok)
 			}
 		case "bytes":
 			data, _ := hex.DecodeString(st.Hex)
@@ -322,6 +376,11 @@ func execRealOnce(sc RealScenario) *evid.Failure {
 	}
 	mu.Lock()
 	defer mu.Unlock()
+	if resetterTalked {
+		if n := newConns[resetter.LocalAddr().String()]; n != 1 {
+			return evid.Failf("real/connection-count", sc, "remote address %s (a peer that answered a confirmable message of the server with a Reset and went on talking) was reported as %d new connections, want exactly 1", resetter.LocalAddr(), n)
+		}
+	}
 	for i, c := range good {
 		n := c.LocalAddr().String()
 		want := 1
@@ -362,7 +421,7 @@ func genReal(t *rapid.T) RealScenario {
 	sc.SameToken = sc.TwoAtOnce && sc.Responders > 0 && rapid.IntRange(0, 2).Draw(t, "sametoken") == 0
 	n := rapid.IntRange(2, 12).Draw(t, "nsteps")
 	for i := 0; i < n; i++ {
-		st := Step{Kind: rapid.SampledFrom([]string{"req", "req", "ask-con", "ask-non", "bytes", "bytes", "bytes"}).Draw(t, "kind")}
+		st := Step{Kind: rapid.SampledFrom([]string{"req", "req", "ask-con", "ask-non", "rawreset", "bytes", "bytes", "bytes"}).Draw(t, "kind")}
 		if st.Kind != "bytes" {
 			st.Actor = rapid.IntRange(0, sc.Good-1).Draw(t, "who")
 		} else {
